@@ -31,12 +31,23 @@ def pairs(tier):
             continue
         # groupby: tree vs shuffle reduction
         for q in ("L.groupby('a').c.sum({k})", "L.groupby('a').b.mean({k})", "L.groupby('a').count({k})", "L.groupby('a').size({k})", "L.groupby('a').b.median({k})"):
+            if "median" in q and n > (2 if tier == "quick" else 3):
+                continue  # order statistics: cubic in the rows
             for se in (SPLIT_EVERY if tier != "quick" else [False, 2, 8]):
                 out.append((P(q.format(k="")), q.format(k=f"split_every={se}"), "groupby-split_every"))
             for so in SPLIT_OUT:
                 out.append((P(q.format(k="")), q.format(k=f"split_out={so}"), "groupby-split_out"))
                 if tier != "quick" or so in (2, True):
                     out.append((P(q.format(k="")), q.format(k=f"split_out={so}, split_every=2"), "groupby-split_out-every"))
+        # grouped variance, multi-function aggregation and the missing-key group: every level of the tree must group alike
+        for q in ("L.groupby('a').b.var({k})", "L.groupby('b', dropna=False).c.sum({k})", "L.groupby('b', dropna=False).c.var({k})", "L.groupby('b', dropna=False).c.mean({k})",
+                  "L.groupby('a').agg({{'c': 'sum', 'b': 'mean'}}{c}{k})", "L.groupby('b', dropna=False).agg({{'c': ['sum', 'count']}}{c}{k})", "L.groupby('a').c.std({k})"):
+            if n > 3 and tier == "quick" and ("std" in q or "mean" in q):
+                continue
+            for kw in ["split_every=2", "split_every=3", "split_every=False", "split_out=2", "split_out=2, split_every=2"]:
+                if tier == "quick" and kw == "split_every=3" and n != 5:
+                    continue
+                out.append((P(q.format(k="", c="")), q.format(k=kw, c=", "), "groupby-tree-kwargs"))
         # unique / drop_duplicates / value_counts
         for q in ("L.a.unique({k})", "L.drop_duplicates(subset=['a']{c}{k})", "L.a.value_counts({k})", "L.drop_duplicates({k})", "L.a.nunique({k})"):
             base = q.format(k="", c="")
